@@ -48,12 +48,23 @@ def run(tier):
                 for k, xx in enumerate((x0, x1, 0)):
                     p.update({"x%d" % k: xx, "v%d" % k: (v + k) % 9, "o%d" % k: (o + k) % 6, "l%d" % k: (l + 2 * k) % 8})
                 mj.append(dict(base, harness="VerifC16Marker", params=p))
+    # resolution level: the guarded dependency is followed exactly when the marker holds for the requested extras
+    fj = []
+    for shape in (0, 1, 2, 3, 4):
+        for x0, x1, x2 in ((0, 0, 0), (1, 0, 0), (0, 1, 0), (2, 0, 0), (0, 0, 1), (1, 1, 0)):
+            for (v, o, l) in ([(0, 4, 1), (3, 3, 4), (1, 1, 2), (4, 3, 5)] if q else [(0, 4, 1), (3, 3, 4), (1, 1, 2), (4, 3, 5), (4, 7, 5), (2, 5, 2), (5, 2, 3)]):
+                for withextra in (0, 1):
+                    p = {"shape": shape, "w": 1, "q": 0, "withextra": withextra}
+                    for k, xx in enumerate((x0, x1, x2)):
+                        p.update({"x%d" % k: xx, "v%d" % k: (v + 3 * k) % 9, "o%d" % k: (o + k) % 6, "l%d" % k: (l + 3 * k) % 8})
+                    fj.append(dict(base, harness="VerifC16Followed", params=p, summarise=base["summarise"] + ["(deps.dev/util/resolve.PackageKey).Compare"]))
+    mj += fj
     for j in mj:
         for k in range(3):
             j["params"].setdefault("rev%d" % k, 0)
     return run_property("C16", tier, [Group("pypi", pj), Group("rpypi", mj)],
                         required_covers=["requirement parsed", "valid name canonicalised", "canon computed", "marker parsed", "marker true", "marker false",
-                                         "comparison packaging rejects"],
+                                         "comparison packaging rejects", "guarded dependency followed", "guarded dependency not followed"],
                         assumptions=["requirement strings are built from the PEP 508 pieces in harness/pypi/c16.go (the expected fields are known by construction)",
                                      "marker reference: version comparison for python_version / python_full_version / implementation_version against release literals (a leading v admitted), Python string comparison otherwise; the literal may stand on the left for version ordering, string equality/containment and extra; ~= and === on non-versions and URL requirements are outside"],
                         bounds={"name_len": "<=6", "marker_atoms": 3})
